@@ -25,7 +25,7 @@ let () =
         if st i j && not (kind = 2 && j > i) then data.(idx e i j) <- 100 + 10 * i + j done done;
       let buf = Buffer.create 1024 in
       let sec name vals = Buffer.add_string buf name; List.iter (fun v -> Buffer.add_string buf (" " ^ string_of_int v)) vals; Buffer.add_string buf " | " in
-      let tr e = transpose_engine e in
+      let tr e (l', u') = transpose_engine e l' u' in
       let lu e = if transpose_swaps_LU e then (zu, zl) else (zl, zu) in
       (* rows read through the expression traversal, for engine e' with band parameters (l',u'), data accessor d, dimension m *)
       let rows e' (l', u') d m = List.concat (List.map (fun i -> read_row 0 e' l' u' d (z_of_int m) zoff (z_of_int i)) (range 0 m)) in
@@ -33,10 +33,10 @@ let () =
       sec "D" (List.concat (List.map (fun i -> List.map (fun j -> dense 0 e zl zu (get data) zoff (z_of_int i) (z_of_int j)) (range 0 n)) (range 0 n)));
       let m = rows e (zl, zu) (get data) n in
       sec "M" m;
-      let e1 = tr e in let lu1 = lu e in
+      let e1 = tr e (zl, zu) in let lu1 = lu e in
       let t = rows e1 lu1 (get data) n in
       sec "T" t;
-      let e2 = tr e1 in let lu2 = if transpose_swaps_LU e1 then (snd lu1, fst lu1) else lu1 in
+      let e2 = tr e1 lu1 in let lu2 = if transpose_swaps_LU e1 then (snd lu1, fst lu1) else lu1 in
       sec "TT" (rows e2 lu2 (get data) n);
       let diag pre e' (l', u') kindstored =
         List.iter (fun k ->
